@@ -18,7 +18,7 @@ From RU Require Import Base.Prelude Base.Utf8 Base.Utf8Facts Model.AsciiSet Gen.
   Proofs.C01_EqRef Proofs.C01_EqPath Proofs.C01_EqOverflow Proofs.C01_EqEmpty Proofs.C01_EqClasses
   Proofs.C01_EqAuthSpec Proofs.C01_EqAuthModel Proofs.C01_EqAuth Proofs.C01_EqClasses2 Proofs.C01_EqRel Proofs.C01_EqRelPath
   Proofs.C01_EqRelArms Proofs.C01_EqRelBase
-  Proofs.C01_EqSpSpec Proofs.C01_EqSpPath Proofs.C01_EqSpRel Proofs.C01_EqSpModel Proofs.C01_EqSp.
+  Proofs.C01_EqSpSpec Proofs.C01_EqSpPath Proofs.C01_EqSpRel Proofs.C01_EqSpModel Proofs.C01_EqSp Proofs.C01_EqAbs.
 
 (* the special path state started on the segment list P0 (empty buffer), on the text t *)
 Definition rel_path_result_s (sb : spec_url) (P0 : list (list N)) (t : list N) : spec_url :=
@@ -977,3 +977,71 @@ Proof.
 Qed.
 
 End SameSchemeClasses.
+
+(* ================= "sch://..." with the scheme of the base: the base is ignored ================= *)
+(* two leading '/' or '\' after "sch:" - the Standard reaches the special authority ignore slashes state
+   (directly on "//", through the relative and relative slash states otherwise), parser.rs counts two slashes
+   and calls after_double_slash: the same outcome as without base *)
+Definition two_sl (R : list N) : bool := match R with c1 :: c2 :: _ => is_sl c1 && is_sl c2 | _ => false end.
+Definition same_two_sl (sb : spec_url) (sch R : list N) : bool :=
+  list_eqb sch (su_scheme sb) && is_special_scheme sch && negb (list_eqb sch str_file) && two_sl R.
+
+Theorem spec_same_two_sl shp sb input sch R :
+  spec_scheme (spec_clean input) = Some (sch, R) -> same_two_sl sb sch R = true ->
+  outcome_eq (spec_basic_url_parse shp input (Some sb)) (spec_basic_url_parse shp input None).
+Proof.
+  intros Es Hc. unfold same_two_sl in Hc.
+  apply andb_true_iff in Hc. destruct Hc as [Hc H2sl]. apply andb_true_iff in Hc. destruct Hc as [Hc Hnf].
+  apply andb_true_iff in Hc. destruct Hc as [Esch Hsp]. apply list_eqb_spec in Esch. subst sch. apply negb_true_iff in Hnf.
+  destruct R as [|c1 [|c2 T]]; try discriminate H2sl. cbn [two_sl] in H2sl.
+  apply andb_true_iff in H2sl. destruct H2sl as [H1 H2].
+  assert (drop_sl (c1 :: c2 :: T) = drop_sl T) as Ed by (unfold drop_sl; cbn [drop_leading]; rewrite H1, H2; reflexivity).
+  apply (outcome_is_eq _ _ (sauth_s shp (su_scheme sb) (drop_sl T))).
+  - set (inp := spec_clean input) in *.
+    destruct (runs_scheme shp inp (Some sb) (su_scheme sb) (c1 :: c2 :: T) BOutOfFuel Es) as (pre & Hin & _).
+    assert (inp = (pre ++ [58]) ++ c1 :: c2 :: T) as Hin2 by (rewrite Hin, <- app_assoc; reflexivity).
+    assert (forall res, Runs shp inp (Some sb) (at_pos StSpecialRelativeOrAuthority (pre ++ [58]) [] false false false
+                                                (set_scheme empty_url (su_scheme sb))) res ->
+                        spec_basic_url_parse shp input (Some sb) = res) as Hrun.
+    { intros res HR. apply spec_parse_of_runs. fold inp.
+      destruct (runs_scheme shp inp (Some sb) (su_scheme sb) (c1 :: c2 :: T) res Es) as (pre2 & Hin' & K). apply K.
+      assert (pre2 = pre) as -> by (rewrite Hin in Hin'; apply app_inv_tail in Hin'; symmetry; exact Hin').
+      exact (runs_scheme_colon_same shp inp sb Hsp Hnf pre (c1 :: c2 :: T) res Hin HR). }
+    assert (out_is shp inp (Some sb) (at_pos StSpecialRelativeOrAuthority (pre ++ [58]) [] false false false
+                                             (set_scheme empty_url (su_scheme sb)))
+                   (sauth_s shp (su_scheme sb) (drop_sl T))) as HO.
+    { destruct ((c1 =? 47) && (c2 =? 47)) eqn:E47.
+      - apply andb_true_iff in E47. destruct E47 as [E1 E2]. apply N.eqb_eq in E1, E2. subst c1 c2.
+        assert (inp = (((pre ++ [58]) ++ [47; 47]) ++ take_sl T) ++ drop_sl T) as Hin3.
+        { rewrite <- !app_assoc. cbn [app]. rewrite take_drop_sl. rewrite Hin. reflexivity. }
+        pose proof (runs_authority_s shp inp (Some sb) _ (drop_sl T) (su_scheme sb) Hin3 Hsp Hnf) as RA.
+        destruct (sauth_s shp (su_scheme sb) (drop_sl T)) as [su|]; cbn [out_is] in *.
+        + exact (runs_sroa_authority shp inp sb (pre ++ [58]) T _ Hin2 RA).
+        + destruct RA as [uf RA]. exists uf. exact (runs_sroa_authority shp inp sb (pre ++ [58]) T _ Hin2 RA).
+      - pose proof (runs_rel_authority_g shp inp sb Hsp Hnf (pre ++ [58]) (set_scheme empty_url (su_scheme sb)) eq_refl
+                      c1 c2 T Hin2 H1 H2) as RA.
+        assert (cis (hd_error (c1 :: c2 :: T)) 47 && starts_with_cp 47 (tl (c1 :: c2 :: T)) = false) as E by exact E47.
+        destruct (sauth_s shp (su_scheme sb) (drop_sl T)) as [su|]; cbn [out_is] in *.
+        + exact (runs_sroa_relative shp inp sb (pre ++ [58]) _ _ Hin2 E RA).
+        + destruct RA as [uf RA]. exists uf. exact (runs_sroa_relative shp inp sb (pre ++ [58]) _ _ Hin2 E RA). }
+    destruct (sauth_s shp (su_scheme sb) (drop_sl T)) as [su|]; cbn [out_is outcome_is] in *.
+    + apply Hrun. exact HO.
+    + destruct HO as [uf HO]. exists uf. apply Hrun. exact HO.
+  - pose proof (spec_special shp input (su_scheme sb) (c1 :: c2 :: T) Es Hsp Hnf) as K. rewrite Ed in K.
+    destruct (sauth_s shp (su_scheme sb) (drop_sl T)); exact K.
+Qed.
+
+Theorem model_same_two_sl dbg hp hpo hd ovr b input sch R :
+  spec_scheme (spec_clean input) = Some (sch, R) -> is_special_scheme sch = true -> list_eqb sch str_file = false ->
+  two_sl R = true ->
+  parse_url dbg hp hpo hd ovr (Some b) input = parse_url dbg hp hpo hd ovr None input.
+Proof.
+  intros Es Hsp Hnf H2sl. rewrite spec_clean_is_ntnl_trim in Es. destruct (spec_scheme_model _ _ _ Es) as (rem & Hps & Hrem).
+  unfold parse_url. rewrite Hps. unfold parse_with_scheme. rewrite (special_type _ Hsp Hnf).
+  destruct (inp_count_matching is_slash_or_bslash rem) as [sl rm] eqn:Ecm.
+  pose proof (inp_count_matching_fst is_slash_or_bslash rem) as Hf. rewrite Ecm in Hf. cbn [fst] in Hf.
+  change is_slash_or_bslash with is_sl in Hf. rewrite Hrem in Hf.
+  destruct R as [|c1 [|c2 T]]; try discriminate H2sl. cbn [two_sl] in H2sl.
+  apply andb_true_iff in H2sl. destruct H2sl as [H1 H2]. cbn [count_leading] in Hf. rewrite H1, H2 in Hf.
+  replace (sl <? 2) with false by lia. reflexivity.
+Qed.
